@@ -60,6 +60,10 @@ def _r1_r2(model, res):
         ('INDEX', 'row given as text', lambda: [Sym('list', 'ARR'), Sym('str', 'r')]),
         ('INDEX', 'column given as text', lambda: [Sym('list', 'ARR'), Const(None), Sym('str', 'c')]),
         ('INDEX', 'row and column given as text', lambda: [Sym('list', 'ARR'), Sym('str', 'r'), Sym('str', 'c')]),
+        # fractional positions (4/2, 0.5): where the code takes the integer part, that part is what must be within the array
+        ('INDEX', 'fractional row', lambda: [Sym('list', 'ARR'), Aff(1, 0, 'num', 'r')]),
+        ('INDEX', 'fractional column', lambda: [Sym('list', 'ARR'), Const(None), Aff(1, 0, 'num', 'c')]),
+        ('INDEX', 'fractional row and column', lambda: [Sym('list', 'ARR'), Aff(1, 0, 'num', 'r'), Aff(1, 0, 'num', 'c')]),
     ]
     n_ev = 0
     for name, label, mk in cases:
@@ -75,6 +79,8 @@ def _r1_r2(model, res):
                 if ev[0] != 'subscript':
                     continue
                 _, base, idx, notes = ev
+                if idx.kind == 'num':
+                    continue        # a non-integral subscript: python raises TypeError, which is an error result
                 n_ev += 1
                 box, multi = H.box_of(notes)
                 mn = H.int_min(idx, box)
@@ -276,6 +282,26 @@ def _r3(model, res):
                 res.violation('R3', 'function:CHOOSE:whole-values', m2.where(f2),
                               'CHOOSE(%d, {a0,a1}, v2, {b00;b10}) must give %s (each value is chosen whole); got %r' % (i, want, o.value),
                               case={'index': i}, func=f2.name)
+    # a single option that is an array is still one option: CHOOSE(1, {a0,a1,a2}) is the array, CHOOSE(2, {a0,a1,a2}) an error
+    for i in (1, 2, 3):
+        want = ['a0', 'a1', 'a2'] if i == 1 else 'error'
+        try:
+            outs = _runs(model, 'CHOOSE', lambda i=i: [Const(i), ListV([Sym('int', 'a0'), Sym('int', 'a1'), Sym('int', 'a2')])])
+        except Unmodelled as e:
+            res.ob('R3', 'CHOOSE', {'index': i, 'values': 'one array'}, True, 'undecided: %s' % e)
+            continue
+        for o in outs:
+            if o.imprecise:
+                continue
+            if want == 'error':
+                ok = o.kind == 'raise' or (o.kind == 'return' and o.value.tag == 'err')
+            else:
+                ok = o.kind == 'return' and names(o.value) == want
+            res.ob('R3', 'CHOOSE', {'index': i, 'values': 'one array', 'expected': want}, ok, repr(o.value))
+            if not ok:
+                res.violation('R3', 'function:CHOOSE:whole-values', m2.where(f2),
+                              'CHOOSE(%d, {a0,a1,a2}) - one option, an array - must give %s; got %r: the array is one value, its items are not '
+                              'the options' % (i, want, o.value), case={'index': i, 'values': 'one array'}, func=f2.name)
     # a fractional index: an error, or the truncated position - never the rounded one (i = 0.6 is < 1 and must not select v1)
     try:
         outs = _runs(model, 'CHOOSE', lambda: [Sym('float', 'i'), Sym('str', 'v1'), Sym('str', 'v2'), Sym('str', 'v3')])
